@@ -232,11 +232,12 @@ CLAIMS = {
 # what the correspondence / oracle streams gained after the fourth round of seeded changes (appended to the claim texts)
 TIE_ADDENDA = {
  "C01": " Inputs also include repeated tip labels, lengths on internal branches only / on tips only, and the `tomb2` arena layout (tips that had children, a lone root in an arena of several slots).",
- "C03": " Starting trees include partially annotated ones with lengths on internal branches only or on tips only (the two records of a branch are compared from step 0).",
+ "C03": " Starting trees include partially annotated ones with lengths on internal branches only or on tips only (the two records of a branch are compared from step 0). Histories also contain add_child whose node argument is a COPY of a node of the tree (it arrives with that node's links) and branch lengths overwritten in place through the public setters, both records; both requests are model definitions with invariant theorems (Props/C03Protocol.lean: add_child_of_a_copy_preserves, length_overwrite_preserves, every_extended_history).",
  "C04": " The battery also holds the length-aware bipartition answers (weighted RF, branch score and the comparison report against a fixed reference tree on the same taxa and against the object itself, Ok/Err included).",
  "C05": " Label sets include look-alikes that differ only by blanks, invisible characters, case or quoting (API-built).",
  "C09": " A 70 000-level caterpillar (thorough: 300 000) is queried for root paths, common ancestors and distances on the real crate.",
  "C10": " Every traversal and listing is also run from three start nodes of a 16 000-level caterpillar (thorough: 80 000) on a 1 GiB stack on the real crate.",
+ "C11": " Every operation is also judged on the object after one or two of its branch lengths were overwritten in place through the public setters.",
  "C12": " A third of the trees carry a length on the root itself (it belongs to no branch).",
  "C13": " Matrices with REPEATED labels (through new and set_taxa): to_map agrees with get, identical labels read zero, a label names its first position (to_map_functional: entries under one key agree).",
  "C14": " Square texts that are symmetric except in one mirrored pair, over zero-rich values, must be rejected whichever entry was changed.",
